@@ -1,6 +1,7 @@
 package props
 
 import (
+	"strings"
 	"sync"
 
 	jp "github.com/evanphx/json-patch/v5"
@@ -50,6 +51,10 @@ func buildUniverse() {
 	}
 	universe = u
 }
+
+// surrogateNames are member-name texts that decode to pairwise different names.
+var surrogateNames = []string{`"\ud800\u0041"`, `"\ud800\u0042"`, `"\udc00\u0043"`, `"\ud800\ud800\udc00"`, `"\ud83d\ude00"`, `"\ud83d\u0044"`, `"\u0045\ud800"`, `"\ud800"`,
+	`"\ud800\ud801\u0046"`, `"\udbff\udfff"`, `"\ud800\\u0047"`, `"\ud800G"`, `"\ud800\u00e9"`, `"\ud83d\ude00\u0041"`, `"\ud83d\ude01"`, `"A"`, `"\u0042"`}
 
 func universeN() int    { universeOnce.Do(buildUniverse); return len(universe) }
 func universeObjN() int { universeOnce.Do(buildUniverse); return len(universeObjs) }
@@ -149,6 +154,7 @@ func init() {
 		}
 	}
 	prof := gen.Hostile().With(func(p *gen.Profile) { p.Keys = gen.MergeKeys; p.Width = 4; p.ScalarBias = 35 })
+	near := gen.Hostile().With(func(p *gen.Profile) { p.Keys = gen.NearMissKeys; p.Width = 4; p.ScalarBias = 40 })
 	core.Register(&core.Prop{
 		ID:    "C02",
 		Title: "RFC 7396 merge patch application computes the RFC result (v5)",
@@ -186,6 +192,38 @@ func init() {
 					docT = prof.Object(c.R, 1+c.R.Intn(4))
 				}
 				judgeMerge(c, jp.MergePatch, "", docT, genMergePatchFor(c.R, prof, mustParse(docT)))
+			}},
+			{Name: "names-that-differ-by-case-folding-or-normalisation", Count: n(8000, 400000), Run: func(c *core.Ctx, idx int) {
+				docT := near.Object(c.R, 1+c.R.Intn(3))
+				patT := near.Object(c.R, 1+c.R.Intn(3))
+				if idx%2 == 0 {
+					patT = genMergePatchFor(c.R, near, mustParse(docT))
+				}
+				judgeMerge(c, jp.MergePatch, "", docT, patT)
+				c.Count("near-miss-names:cases")
+			}},
+			{Name: "names-with-surrogate-escapes", Count: n(4000, 200000), Run: func(c *core.Ctx, idx int) {
+				// member names spelled with \u escapes around surrogates, paired and unpaired: pairwise different names once
+				// decoded (an unpaired half reads as U+FFFD, what follows it is kept), several of them side by side
+				perm := c.R.Perm(len(surrogateNames))
+				nd := 2 + c.R.Intn(4)
+				var doc, pat []string
+				for i, pi := range perm[:nd] {
+					doc = append(doc, surrogateNames[pi]+":"+[]string{"1", `{"v":2}`, `"s"`, `[3]`}[(i+idx)%4])
+					switch c.R.Intn(4) {
+					case 0:
+						pat = append(pat, surrogateNames[pi]+":null")
+					case 1:
+						pat = append(pat, surrogateNames[pi]+`:{"w":null,"v":7}`)
+					case 2:
+						pat = append(pat, surrogateNames[pi]+`:"new"`)
+					}
+				}
+				for _, pi := range perm[nd : nd+c.R.Intn(3)] {
+					pat = append(pat, surrogateNames[pi]+`:{"added":1,"gone":null}`)
+				}
+				judgeMerge(c, jp.MergePatch, "", "{"+strings.Join(doc, ",")+"}", "{"+strings.Join(pat, ",")+"}")
+				c.Count("surrogate-names:cases")
 			}},
 			{Name: "independent-pairs", Count: n(30000, 3000000), Run: func(c *core.Ctx, idx int) {
 				judgeMerge(c, jp.MergePatch, "", prof.Any(c.R), prof.Any(c.R))
